@@ -40,6 +40,7 @@ fn describe_fields(hd: &JwsHeader) -> (H, i64) {
   let custom = match custom { Some(k) if k.is_empty() => None, x => x };
   (H { alg: hd.alg().is_some(), b64: hd.b64(), crit: hd.crit().map(|c| c.iter().map(|n| name_id(n)).collect()), common, custom }, hd.alg().map(alg_id).unwrap_or(-1))
 }
+pub fn describe_fields_pub(hd: &JwsHeader) -> H { describe_fields(hd).0 }
 pub fn entry_from_json(text: &[u8]) -> Entry {
   match serde_json::from_slice::<JwsHeader>(text) {
     Ok(v) => { let (h, a) = describe_fields(&v); Entry { json: text.to_vec(), parses: true, h: Some(h), algv: a, value: Some(v) } }
